@@ -46,6 +46,10 @@ func (ma *KVGraph) sampleSchema(ctx context.Context, graph string, n uint32, ran
 		schema := map[string]interface{}{}
 		for i := range ma.idx.GetTermMatch(context.Background(), labelField, label, int(n)) {
 			v := gi.GetVertex(i, true)
+			if v == nil {
+				//the label index can still list a vertex that was deleted
+				continue
+			}
 			data := v.Data
 			ds := gripql.GetDataFieldTypes(data)
 			util.MergeMaps(schema, ds)
